@@ -142,6 +142,21 @@ Fixpoint remove_binding (bs : list binding) (rm : binding) : list binding :=
 Definition remove_queue_bindings (bs : list binding) (q : name) : list binding :=
   filter (fun b => negb (bytes_eqb (b_queue b) q)) bs.
 
+(* the three operations that maintain an exchange's binding list *)
+Inductive bl_op :=
+| BAppend (b : binding)          (* AppendBinding *)
+| BRemove (b : binding)          (* RemoveBinding *)
+| BRemoveQueue (q : name).       (* RemoveQueueBindings *)
+
+Definition bl_step (bs : list binding) (op : bl_op) : list binding :=
+  match op with
+  | BAppend b => append_binding bs b
+  | BRemove b => remove_binding bs b
+  | BRemoveQueue q => remove_queue_bindings bs q
+  end.
+
+Definition bl_run (ops : list bl_op) : list binding := fold_left bl_step ops [].
+
 (* matchedQueues[q] = true *)
 Definition mq_insert (q : name) (acc : list name) : list name :=
   if existsb (bytes_eqb q) acc then acc else acc ++ [q].
